@@ -25,9 +25,17 @@ import (
 // Versions above 10 behave like version ver-10 but all carry the same
 // label ("v0"): a spec replaced by a different one under an unchanged
 // name and version.
+//
+// Versions above 20 behave like version ver-20 but have no "parked" node:
+// a machine parked under an older version finds itself at a node its new
+// specification does not have.
 func counterSpec(ver int) *core.Spec {
 	label := fmt.Sprintf("v%d", ver)
-	if ver > 10 {
+	slim := false
+	if ver > 20 {
+		ver -= 20
+		slim = true
+	} else if ver > 10 {
 		ver -= 10
 		label = "v0"
 	}
@@ -37,7 +45,7 @@ var c = (typeof bs.count === 'number' ? bs.count : 0) + (typeof bs["?n"] === 'nu
 _.out({to: "sink", count: c, ver: %d});
 return {count: c, ver: %d};
 `, ver, ver, ver)
-	return &core.Spec{Name: "counter", Version: label, Nodes: map[string]*core.Node{
+	spec := &core.Spec{Name: "counter", Version: label, Nodes: map[string]*core.Node{
 		"start": {Branches: &core.Branches{Type: "message", Branches: []*core.Branch{
 			{Pattern: map[string]interface{}{"inc": "?n"}, Target: "add"},
 			{Pattern: map[string]interface{}{"park": true}, Target: "parked"}}}},
@@ -46,6 +54,11 @@ return {count: c, ver: %d};
 		"parked": {Branches: &core.Branches{Type: "message", Branches: []*core.Branch{
 			{Pattern: map[string]interface{}{"unpark": true}, Target: "start"}}}},
 	}}
+	if slim {
+		delete(spec.Nodes, "parked")
+		spec.Nodes["start"].Branches.Branches = spec.Nodes["start"].Branches.Branches[:1]
+	}
+	return spec
 }
 
 type COp struct {
@@ -76,7 +89,7 @@ func genCOp(t *rapid.T, label string, existingStateOK, recreateOK bool) COp {
 		kinds = append(kinds, "setState", "setState")
 	}
 	op := COp{Kind: rapid.SampledFrom(kinds).Draw(t, label+".kind"), Mid: rapid.SampledFrom(c15mids).Draw(t, label+".mid")}
-	op.Ver = rapid.SampledFrom([]int{1, 2, 3, 1, 2, 3, 11, 12, 13}).Draw(t, label+".ver")
+	op.Ver = rapid.SampledFrom([]int{1, 2, 3, 1, 2, 3, 11, 12, 13, 21, 22}).Draw(t, label+".ver")
 	if op.Kind == "setState" || (op.Kind == "create" && rapid.Bool().Draw(t, label+".ws")) {
 		op.State = true
 		op.Count = float64(rapid.IntRange(0, 50).Draw(t, label+".count"))
